@@ -37,13 +37,14 @@ const (
 	fopProcess = iota
 	fopAddDir0
 	fopAddDir1
-	fopName // fopName+i: Read by the module name of fileSpecs[i]; then fopPath+i: Read by path
+	fopFieldDir1 // the exported field Modules.Path gets the directory appended, without AddPath
+	fopName      // fopName+i: Read by the module name of fileSpecs[i]; then fopPath+i: Read by path
 )
 
 var nameReads = []string{"fa", "fb", "fc", "fd"}
 
 func fileOps() []string {
-	out := []string{"process", "addpath(d0)", "addpath(d1)"}
+	out := []string{"process", "addpath(d0)", "addpath(d1)", "path-field+=d1"}
 	for _, n := range nameReads {
 		out = append(out, "read("+n+")")
 	}
@@ -91,6 +92,9 @@ func applyFileOp(w *fileWorld, ms *yang.Modules, op int) (ok bool) {
 		return true
 	case op == fopAddDir1:
 		ms.AddPath(w.dirs[1])
+		return true
+	case op == fopFieldDir1:
+		ms.Path = append(ms.Path, w.dirs[1])
 		return true
 	case op < fopName+len(nameReads):
 		return ms.Read(nameReads[op-fopName]) == nil
